@@ -40,6 +40,14 @@ THEOREMS = ["DAVerif." + t for t in (
     "C04_cte_elim_sound_translated", "C04_to_sql_options_sound_translated", "C04_to_sql_options_engine_order",
     "C04_to_sql_options_sound_reachable", "C04_key_faithful_nonempty_necessary", "C04_render_collision",
     "C04_quote_assumption_consistent", "C04_options_sound_shared_instance")]
+# further theorems of these modules (supporting / intermediate statements of the property theorems above): audited
+# for axioms on every run like the rest
+THEOREMS += [
+    "DAVerif.Sql.C04_merge_option_sound_res",
+    "DAVerif.Sql.C04_merge_option_sound_lifted",
+    "DAVerif.C04_merge_invariant_nested",
+]
+LEAN_MODULES += ['DAVerif.Props.C16nested']
 ASSUMPTIONS = [
     "the NearSQL translation `toNearSql`, the WITH form `toWithForm` and the bag semantics `semNear` of the SQL text "
     "(lean/DAVerif/Sql/*.lean) are the real code and the engine: tied by suites k5_with and k5_semopt on every run",
